@@ -47,8 +47,8 @@ ProgReact(g, inp) ==
   ELSE IF InTry(g.p.at) /\ Catches(inp.v) THEN ToCleanup(inp.v)
   ELSE Reaction("raise", NoMsg, inp.v, NoP)
 
-DevCmds == {"read", "set", "trigger", "stage", "unstage", "kickoff", "complete", "collect"}
-StatusCmds == {"set", "trigger", "kickoff", "complete"}
+DevCmds == {"read", "set", "trigger", "stage", "unstage", "kickoff", "complete", "prepare", "collect"}
+StatusCmds == {"set", "trigger", "kickoff", "complete", "prepare"}
 
 MCInit == Init /\ MonInit /\ env = [nreq |-> 0, nfault |-> 0, ncall |-> 0, nupd |-> 0, nsus |-> 0, susp |-> {}]
 
